@@ -83,6 +83,10 @@ impl Sim {
 
 thread_local! {
     static SIM: RefCell<Sim> = RefCell::new(Sim::new());
+    /// `runf`: the answer address filter denies the network of the UDP answers / of the TCP answers
+    static DENY: std::cell::Cell<Option<(bool, bool)>> = const { std::cell::Cell::new(None) };
+    /// payload of the last `NoRecordsFound` error classified: (authority records, glue records)
+    static LAST_NR: std::cell::Cell<Option<(usize, usize)>> = const { std::cell::Cell::new(None) };
 }
 
 fn sim_now() -> u64 {
@@ -323,6 +327,8 @@ enum Rep {
     Rst,
     Busy,
     Cm,
+    /// establishing the connection fails
+    Cf,
 }
 
 impl Rep {
@@ -339,6 +345,7 @@ impl Rep {
             "rst" => Self::Rst,
             "busy" => Self::Busy,
             "cm" => Self::Cm,
+            "cf" => Self::Cf,
             _ => return None,
         })
     }
@@ -355,11 +362,12 @@ impl Rep {
             Self::Rst => "rst",
             Self::Busy => "busy",
             Self::Cm => "cm",
+            Self::Cf => "cf",
         }
     }
     /// transport faults of the property: unreachable / reset / timeout / busy back-pressure
     fn is_fault(self) -> bool {
-        matches!(self, Self::To | Self::Io | Self::Rst | Self::Busy)
+        matches!(self, Self::To | Self::Io | Self::Rst | Self::Busy | Self::Cf)
     }
 }
 
@@ -377,6 +385,8 @@ struct Srv {
     pre_tcp: bool,
     udp: Option<Vec<Step>>,
     tcp: Option<Vec<Step>>,
+    /// bit 0: protocols configured TCP first; bit 1: pre-established connections handed over TCP first
+    ord: u8,
 }
 
 #[derive(Clone, Copy, PartialEq, Eq, Debug)]
@@ -416,6 +426,8 @@ struct Env {
     new_conns: Mutex<Vec<(usize, bool)>>,
     /// reaction lateness (paced): real offset − virtual now at exchange start
     react_late_us: Mutex<u64>,
+    /// warm-up traffic in progress: scripts are not consumed
+    warming: AtomicBool,
 }
 
 #[derive(Clone)]
@@ -442,14 +454,49 @@ fn srv_of(ip: IpAddr) -> usize {
 
 impl ConnectionProvider for Prov {
     type Conn = Handle;
-    type FutureConn = future::Ready<Result<Handle, NetError>>;
+    type FutureConn = Pin<Box<dyn Future<Output = Result<Handle, NetError>> + Send>>;
     type RuntimeProvider = SimRuntime;
 
     fn new_connection(&self, ip: IpAddr, config: &ConnectionConfig, _cx: &PoolContext) -> Result<Self::FutureConn, NetError> {
         let tcp = !matches!(config.protocol, ProtocolConfig::Udp);
         let srv = srv_of(ip);
-        self.env.new_conns.lock().unwrap().push((srv, tcp));
-        Ok(future::ready(Ok(Handle { env: self.env.clone(), srv, tcp })))
+        let env = self.env.clone();
+        env.new_conns.lock().unwrap().push((srv, tcp));
+        // a scripted `cf` step: this connection attempt fails (at once when its latency is 0, otherwise
+        // after the latency); it consumes the step like an exchange would
+        let step = {
+            let script = if tcp { env.srvs[srv].tcp.as_ref() } else { env.srvs[srv].udp.as_ref() };
+            let mut pos = env.pos.lock().unwrap();
+            let p = &mut pos[srv][tcp as usize];
+            match script.map(|sc| sc[(*p).min(sc.len() - 1)]) {
+                Some(st) if st.rep == Rep::Cf && !env.warming.load(AO::SeqCst) => {
+                    *p += 1;
+                    Some(st)
+                }
+                _ => None,
+            }
+        };
+        let Some(step) = step else {
+            return Ok(Box::pin(future::ready(Ok(Handle { env, srv, tcp }))));
+        };
+        let start = sim_now();
+        let idx = {
+            let mut log = env.log.lock().unwrap();
+            log.push(Ex { srv, tcp, start_us: start, end_us: None, rep: Rep::Cf, lat_us: step.lat_ms * 1000 });
+            log.len() - 1
+        };
+        if step.lat_ms == 0 {
+            env.log.lock().unwrap()[idx].end_us = Some(start);
+            return Err(io_err(io::ErrorKind::ConnectionRefused));
+        }
+        SIM.with(|s| s.borrow_mut().inflight += 1);
+        let guard = InFlight;
+        Ok(Box::pin(async move {
+            let _guard = guard;
+            VSleep::until(start + step.lat_ms * 1000).await;
+            env.log.lock().unwrap()[idx].end_us = Some(sim_now());
+            Err(io_err(io::ErrorKind::ConnectionRefused))
+        }))
     }
 
     fn runtime_provider(&self) -> &Self::RuntimeProvider {
@@ -481,14 +528,31 @@ fn reply(rep: Rep, srv: usize, tcp: bool, request: &DnsRequest) -> Result<DnsRes
                 60,
                 RData::A(Ipv4Addr::new(10, if tcp { 2 } else { 1 }, srv as u8, 1).into()),
             ));
+            if DENY.with(|d| d.get()).is_some() {
+                // records the filter looks at without removing them: an IPv6 address and a non-address record
+                m.add_additional(Record::from_rdata(query.name.clone(), 60, RData::AAAA(std::net::Ipv6Addr::new(0x2001, 0xdb8, 0, 0, 0, 0, 0, 1).into())));
+                m.add_additional(Record::from_rdata(query.name.clone(), 60, RData::TXT(hickory_proto::rr::rdata::TXT::new(vec!["x".to_string()]))));
+            }
         }
-        Rep::Nx => m.metadata.response_code = ResponseCode::NXDomain,
+        Rep::Nx => {
+            m.metadata.response_code = ResponseCode::NXDomain;
+            if DENY.with(|d| d.get()).is_some() {
+                // a referral-shaped negative answer: NS + an address record in the authority section, two
+                // glue addresses (one in the network of the UDP answers, one in that of the TCP answers)
+                let zone = Name::from_str("test.").unwrap();
+                let ns1 = Name::from_str("ns1.test.").unwrap();
+                m.add_authority(Record::from_rdata(zone, 60, RData::NS(hickory_proto::rr::rdata::NS(ns1.clone()))));
+                m.add_authority(Record::from_rdata(Name::from_str("x.test.").unwrap(), 60, RData::A(Ipv4Addr::new(10, 1, 9, 9).into())));
+                m.add_additional(Record::from_rdata(ns1.clone(), 60, RData::A(Ipv4Addr::new(10, 1, 9, 1).into())));
+                m.add_additional(Record::from_rdata(ns1, 60, RData::A(Ipv4Addr::new(10, 2, 9, 1).into())));
+            }
+        }
         Rep::Nd => {}
         Rep::Sf => m.metadata.response_code = ResponseCode::ServFail,
         Rep::Rf => m.metadata.response_code = ResponseCode::Refused,
         Rep::Tc => m.metadata.truncation = true,
         Rep::To => return Err(NetError::Timeout),
-        Rep::Io => return Err(io_err(io::ErrorKind::ConnectionRefused)),
+        Rep::Io | Rep::Cf => return Err(io_err(io::ErrorKind::ConnectionRefused)),
         Rep::Rst => return Err(io_err(io::ErrorKind::ConnectionReset)),
         Rep::Busy => return Err(NetError::Busy),
         Rep::Cm => return Err(NetError::QueryCaseMismatch),
@@ -586,13 +650,19 @@ fn parse_srv(s: &str) -> Option<Srv> {
         _ => return None,
     };
     let warm: u32 = p[1].parse().ok()?;
-    let (pre_udp, pre_tcp) = match p[2] {
-        "-" => (false, false),
-        "u" => (true, false),
-        "t" => (false, true),
-        "ut" => (true, true),
+    let (cfg_tcp_first, pre_tok) = match p[2].strip_prefix('~') {
+        Some(rest) => (true, rest),
+        None => (false, p[2]),
+    };
+    let (pre_udp, pre_tcp, pre_tcp_first) = match pre_tok {
+        "-" => (false, false, false),
+        "u" => (true, false, false),
+        "t" => (false, true, false),
+        "ut" => (true, true, false),
+        "tu" => (true, true, true),
         _ => return None,
     };
+    let ord = cfg_tcp_first as u8 | (pre_tcp_first as u8) << 1;
     let udp = parse_script(p[3])?;
     let tcp = parse_script(p[4])?;
     if udp.is_none() && tcp.is_none() {
@@ -601,7 +671,7 @@ fn parse_srv(s: &str) -> Option<Srv> {
     if (pre_udp && udp.is_none()) || (pre_tcp && tcp.is_none()) || warm > 8 {
         return None;
     }
-    Some(Srv { trust, warm, pre_udp, pre_tcp, udp, tcp })
+    Some(Srv { trust, warm, pre_udp, pre_tcp, udp, tcp, ord })
 }
 
 /// `run <A|B> <user|rr|qs> <ncr> <T ms> <pre> <k> <-|c<ms>j<ms>> <srv>...`
@@ -676,9 +746,10 @@ fn srv_tok(s: &Srv) -> String {
         (false, false) => "-",
         (true, false) => "u",
         (false, true) => "t",
+        (true, true) if s.ord & 2 != 0 => "tu",
         (true, true) => "ut",
     };
-    format!("{}/{}/{}/{}/{}", b(s.trust), s.warm, pre, script_tok(&s.udp), script_tok(&s.tcp))
+    format!("{}/{}/{}{}/{}/{}", b(s.trust), s.warm, if s.ord & 1 != 0 { "~" } else { "" }, pre, script_tok(&s.udp), script_tok(&s.tcp))
 }
 
 fn case_line(c: &Case) -> String {
@@ -704,6 +775,7 @@ fn case_line(c: &Case) -> String {
 // ------------------------------------------------------------------------------------------------
 
 fn classify(r: &Result<DnsResponse, NetError>) -> String {
+    LAST_NR.with(|l| l.set(None));
     match r {
         Ok(resp) => {
             for rec in &resp.answers {
@@ -721,11 +793,16 @@ fn classify(r: &Result<DnsResponse, NetError>) -> String {
             NetError::Io(_) => "err:io".into(),
             NetError::Msg(_) | NetError::Message(_) => "err:msg".into(),
             NetError::QueryCaseMismatch => "err:cm".into(),
-            NetError::Dns(DnsError::NoRecordsFound(NoRecords { response_code, .. })) => match response_code {
-                ResponseCode::NXDomain => "err:nx".into(),
-                ResponseCode::NoError => "err:nodata".into(),
-                _ => "err:norecords".into(),
-            },
+            NetError::Dns(DnsError::NoRecordsFound(nr)) => {
+                let aut = nr.authorities.as_ref().map(|a| a.len()).unwrap_or(0);
+                let glue = nr.ns.as_ref().map(|n| n.iter().map(|f| f.glue.len()).sum::<usize>()).unwrap_or(0);
+                LAST_NR.with(|l| l.set(Some((aut, glue))));
+                match nr.response_code {
+                    ResponseCode::NXDomain => "err:nx".into(),
+                    ResponseCode::NoError => "err:nodata".into(),
+                    _ => "err:norecords".into(),
+                }
+            }
             NetError::Dns(DnsError::ResponseCode(_)) => "err:rcode".into(),
             _ => "err:other".into(),
         },
@@ -743,6 +820,117 @@ struct RunOut {
     cuts: Vec<(u64, u64)>,
     max_late_us: u64,
     new_conns: usize,
+}
+
+// ------------------------------------------------------------------------------------------------
+// small entry points: a request without a question; the retry layer over a plain scripted handle
+// ------------------------------------------------------------------------------------------------
+
+/// `noq`: `NameServerPool::send` with a request that has no query: an error, no upstream exchange
+fn exec_noq(line: &str, rec: &mut Recorder) {
+    rec.stat("noq_request_without_query");
+    let r = catch(|| -> Result<(String, usize), String> {
+        let c = Case {
+            paced: false,
+            strat: Strat::User,
+            ncr: 2,
+            t_ms: BIG_T,
+            pre: 0,
+            k: 1,
+            cx: None,
+            srvs: vec![Srv { trust: true, warm: 0, pre_udp: false, pre_tcp: false, udp: Some(vec![Step { rep: Rep::Ans, lat_ms: 5 }]), tcp: None, ord: 0 }],
+        };
+        let (env, pool) = build_pool(&c)?;
+        let req = DnsRequest::from(Message::query());
+        let out = sim_run(async { pool.send(req).first_answer().await }, false, 100).map_err(|e| format!("{e:?}"))?;
+        let n = env.log.lock().unwrap().len();
+        Ok((classify(&out), n))
+    });
+    match r {
+        Ok(Ok((class, n))) => {
+            let idx = rec.case(line.to_string(), format!("{class} ex={n}"));
+            if !class.starts_with("err:") || n != 0 {
+                rec.fail(idx, format!("a request without a query must end with an error and no upstream exchange: {class}, {n} exchanges"), "");
+            }
+        }
+        Ok(Err(e)) | Err(e) => {
+            let idx = rec.case(line.to_string(), format!("panic {}", e.replace(char::is_whitespace, "_")));
+            rec.fail(idx, format!("request without a query: {e}"), "");
+        }
+    }
+}
+
+#[derive(Clone)]
+struct PlainHandle {
+    outs: Arc<Vec<String>>,
+    sent: Arc<std::sync::atomic::AtomicUsize>,
+}
+
+impl DnsHandle for PlainHandle {
+    type Response = Pin<Box<dyn Stream<Item = Result<DnsResponse, NetError>> + Send>>;
+    type Runtime = SimRuntime;
+    fn send(&self, request: DnsRequest) -> Self::Response {
+        let i = self.sent.fetch_add(1, AO::SeqCst);
+        let o = self.outs[i.min(self.outs.len() - 1)].clone();
+        let query = request.queries.first().cloned().unwrap_or_else(Query::root);
+        let r = match o.as_str() {
+            "ans" => reply(Rep::Ans, 0, false, &request),
+            "noconn" => Err(NetError::NoConnections),
+            "timeout" => Err(NetError::Timeout),
+            "io" => Err(io_err(io::ErrorKind::ConnectionRefused)),
+            "busy" => Err(NetError::Busy),
+            "msg" => Err(NetError::from("scripted")),
+            "nx" => Err(NoRecords::new(Box::new(query), ResponseCode::NXDomain).into()),
+            "nodata" => Err(NoRecords::new(Box::new(query), ResponseCode::NoError).into()),
+            _ => Err(NetError::Dns(DnsError::ResponseCode(ResponseCode::ServFail))),
+        };
+        Box::pin(once(future::ready(r)))
+    }
+}
+
+/// `rt <attempts> <out>...`: `RetryDnsHandle` over a plain handle whose successive sends yield the given
+/// results (the last repeating, never `busy`: a handle that stays busy is re-sent for ever)
+fn exec_rt(line: &str, t: &[&str], rec: &mut Recorder) {
+    const OUTS: [&str; 9] = ["ans", "noconn", "timeout", "io", "busy", "msg", "nx", "nodata", "rcode"];
+    let att = t.get(1).and_then(|x| x.parse::<usize>().ok());
+    let outs: Vec<String> = t.iter().skip(2).map(|x| x.to_string()).collect();
+    let ok = att.map(|a| a <= 6).unwrap_or(false) && !outs.is_empty() && outs.len() <= 12 && outs.iter().all(|o| OUTS.contains(&o.as_str())) && outs.last().map(|o| o != "busy").unwrap_or(false);
+    if !ok {
+        rec.case(line.to_string(), "bad-op".into());
+        rec.stat("bad-op");
+        return;
+    }
+    rec.stat("rt_retry_over_plain_handle");
+    let sent = Arc::new(std::sync::atomic::AtomicUsize::new(0));
+    let h = PlainHandle { outs: Arc::new(outs.clone()), sent: sent.clone() };
+    let r = catch(|| {
+        let req = DnsRequest::from_query(Query::new(q_name(), RecordType::A), DnsRequestOptions::default());
+        sim_run(async { hickory_net::xfer::RetryDnsHandle::new(h, att.unwrap()).send(req).first_answer().await }, false, 100)
+    });
+    match r {
+        Ok(Ok(out)) => {
+            let class = classify(&out);
+            let class = if class.starts_with("ans:") { "ans".to_string() } else { class };
+            let n = sent.load(AO::SeqCst);
+            let idx = rec.case(line.to_string(), format!("{class} sends={n}"));
+            if n > 1 {
+                rec.nontrivial(idx);
+            }
+            // never more sends than attempts + 1, not counting the busy ones
+            let busy = outs.iter().take(n).filter(|o| *o == "busy").count();
+            if n - busy.min(n) > att.unwrap() + 1 {
+                rec.fail(idx, format!("{n} sends ({busy} of them answered busy) for attempts = {}", att.unwrap()), "");
+            }
+        }
+        Ok(Err(e)) => {
+            let idx = rec.case(line.to_string(), format!("hang {e:?}"));
+            rec.fail(idx, format!("retry handle did not complete: {e:?}"), "");
+        }
+        Err(p) => {
+            let idx = rec.case(line.to_string(), format!("panic {}", p.replace(char::is_whitespace, "_")));
+            rec.fail(idx, format!("retry handle panicked: {p}"), "");
+        }
+    }
 }
 
 // ------------------------------------------------------------------------------------------------
@@ -824,7 +1012,8 @@ impl DnsHandle for GHandle {
 
 #[derive(Clone, Copy, PartialEq, Eq, Debug)]
 enum SEv {
-    Start(usize),
+    /// task, request variant (0 plain (EDNS, no DO), 1 EDNS+DO, 2 RD clear, 3 CD set, 4 AAAA, 5 no EDNS at all, 6 EDNS client subnet)
+    Start(usize, u8),
     Drop(usize),
     Release(usize),
     Poll(usize),
@@ -837,26 +1026,62 @@ fn parse_share(t: &[&str]) -> Option<Vec<SEv>> {
     let mut v = vec![];
     for tok in &t[1..] {
         let b = tok.as_bytes();
+        let task = |c: u8| if (b'A'..=b'D').contains(&c) { Some((c - b'A') as usize) } else { None };
+        if b.len() == 3 && b[0] == b's' && (b'0'..=b'6').contains(&b[2]) {
+            v.push(SEv::Start(task(b[1])?, b[2] - b'0'));
+            continue;
+        }
         if b.len() != 2 {
             return None;
         }
-        let task = |c: u8| if (b'A'..=b'D').contains(&c) { Some((c - b'A') as usize) } else { None };
         v.push(match b[0] {
-            b's' => SEv::Start(task(b[1])?),
+            b's' => SEv::Start(task(b[1])?, 0),
             b'd' => SEv::Drop(task(b[1])?),
             b'p' => SEv::Poll(task(b[1])?),
             b'r' if (b'1'..=b'8').contains(&b[1]) => SEv::Release((b[1] - b'0') as usize),
             _ => return None,
         });
     }
-    let starts: Vec<usize> = v.iter().filter_map(|e| if let SEv::Start(x) = e { Some(*x) } else { None }).collect();
+    let starts: Vec<usize> = v.iter().filter_map(|e| if let SEv::Start(x, _) = e { Some(*x) } else { None }).collect();
     let mut d = starts.clone();
     d.sort();
     d.dedup();
     if d.len() != starts.len() {
         return None;
     }
+    // schedules with several request variants: an upstream answer can only be released once its exchange
+    // exists (exchange numbers are global, the model numbers lookups per key)
     Some(v)
+}
+
+/// the request of variant `v` (what `CacheKey::from_request` reads: opcode, RD, CD, queries, DO, client subnet)
+fn variant_request(v: u8) -> DnsRequest {
+    let mut o = DnsRequestOptions::default();
+    let qt = if v == 4 { RecordType::AAAA } else { RecordType::A };
+    match v {
+        1 => {
+            o.use_edns = true;
+            o.edns_set_dnssec_ok = true;
+        }
+        2 => o.recursion_desired = false,
+        5 => o.use_edns = false,
+        6 => {
+            o.use_edns = true;
+            o.edns_set_dnssec_ok = false;
+        }
+        _ => {}
+    }
+    let mut req = DnsRequest::from_query(Query::new(q_name(), qt), o);
+    if v == 3 {
+        req.metadata.checking_disabled = true;
+    }
+    if v == 6 {
+        use hickory_proto::rr::rdata::opt::{ClientSubnet, EdnsOption};
+        if let Some(e) = req.edns.as_mut() {
+            e.options_mut().insert(EdnsOption::Subnet(ClientSubnet::new(IpAddr::V4(Ipv4Addr::new(192, 0, 2, 0)), 24, 0)));
+        }
+    }
+    req
 }
 
 /// `share <ev>...` with ev = `s<X>` start task X (create its `send` future, poll it once), `d<X>` drop it,
@@ -880,7 +1105,6 @@ fn exec_share(line: &str, t: &[&str], rec: &mut Recorder) {
         opts.server_ordering_strategy = ServerOrderingStrategy::UserProvidedOrder;
         let ns = Arc::new(NameServer::new(vec![], NameServerConfig::new(ip_of(0), true, vec![ConnectionConfig::udp()]), &opts, prov));
         let pool = NameServerPool::from_nameservers(vec![ns], Arc::new(PoolContext::new(opts, TlsConfig::new().map_err(|e| format!("tls {e}"))?)));
-        let req = DnsRequest::from_query(Query::new(q_name(), RecordType::A), DnsRequestOptions::default());
         let flag = Arc::new(Flag(AtomicBool::new(false)));
         let waker = Waker::from(flag.clone());
         let mut cx = Context::from_waker(&waker);
@@ -888,6 +1112,10 @@ fn exec_share(line: &str, t: &[&str], rec: &mut Recorder) {
         let mut served: Vec<(usize, usize)> = vec![];
         // ---- the oracle's own bookkeeping (no knowledge of the map): which exchange every task is
         // attached to, who created it, whether its answer has been delivered to anybody
+        let multi = evs.iter().any(|e| matches!(e, SEv::Start(_, v) if *v != 0));
+        let mut invalid = false;
+        let mut variant_of: HashMap<usize, u8> = HashMap::new(); // task -> request variant
+        let mut exch_variant: HashMap<usize, u8> = HashMap::new(); // exchange -> variant of its creator
         let mut creator_of: HashMap<usize, usize> = HashMap::new(); // exchange -> task
         let mut attached: HashMap<usize, usize> = HashMap::new(); // alive task -> exchange
         let mut dropped_creator: std::collections::HashSet<usize> = Default::default(); // exchanges whose creator was dropped
@@ -902,16 +1130,21 @@ fn exec_share(line: &str, t: &[&str], rec: &mut Recorder) {
         let name = |x: usize| (b'A' + x as u8) as char;
         for ev in &evs {
             match *ev {
-                SEv::Start(x) => {
+                SEv::Start(x, var) => {
+                    variant_of.insert(x, var);
+                    let req = variant_request(var);
                     let before = gates.lock().unwrap().started;
-                    // an exchange is in flight when somebody alive is attached to it and nobody has its answer yet
+                    // an exchange is in flight when somebody alive with an IDENTICAL request (identical in the fields
+                    // the de-duplication key is documented to consist of: EDNS without DO or subnet = no EDNS) is
+                    // attached to it and nobody has its answer yet
+                    let class_of = |v: u8| if v == 5 { 0 } else { v };
                     let in_flight: Vec<usize> = {
-                        let mut v: Vec<usize> = attached.values().copied().filter(|k| !delivered.contains(k)).collect();
+                        let mut v: Vec<usize> = attached.iter().filter(|(t, _)| variant_of.get(*t).map(|v| class_of(*v)) == Some(class_of(var))).map(|(_, k)| *k).filter(|k| !delivered.contains(k)).collect();
                         v.sort();
                         v.dedup();
                         v
                     };
-                    let mut f: Fut = Box::pin(pool.send(req.clone()).first_answer());
+                    let mut f: Fut = Box::pin(pool.send(req).first_answer());
                     let mut done = None;
                     for _ in 0..3 {
                         if let Poll::Ready(r) = f.as_mut().poll(&mut cx) {
@@ -922,6 +1155,7 @@ fn exec_share(line: &str, t: &[&str], rec: &mut Recorder) {
                     let after = gates.lock().unwrap().started;
                     if after > before {
                         creator_of.insert(after, x);
+                        exch_variant.insert(after, var);
                         if let Some(k) = in_flight.last() {
                             // the property: a query identical to one in flight shares its upstream exchange
                             let creator_gone = dropped_creator.contains(k);
@@ -943,6 +1177,12 @@ fn exec_share(line: &str, t: &[&str], rec: &mut Recorder) {
                         Some(r) => {
                             let by = answered_by(&r);
                             served.push((x, by));
+                            if let (Some(v), Some(ev)) = (variant_of.get(&x), exch_variant.get(&by)) {
+                                let same_key = v == ev || (matches!(*v, 0 | 5) && matches!(*ev, 0 | 5));
+                                if !same_key {
+                                    fails.push((format!("task {} (request variant {}) received the result of upstream exchange {} made for a different request (variant {})", name(x), v, by, ev), String::new()));
+                                }
+                            }
                             delivered.insert(by);
                         }
                         None => {
@@ -961,6 +1201,10 @@ fn exec_share(line: &str, t: &[&str], rec: &mut Recorder) {
                     }
                 }
                 SEv::Release(k) => {
+                    if multi && k > gates.lock().unwrap().started {
+                        invalid = true;
+                        break;
+                    }
                     let ws: Vec<Waker> = {
                         let mut g = gates.lock().unwrap();
                         g.released.insert(k);
@@ -985,6 +1229,12 @@ fn exec_share(line: &str, t: &[&str], rec: &mut Recorder) {
                             tasks[x] = None;
                             let by = answered_by(&r);
                             served.push((x, by));
+                            if let (Some(v), Some(ev)) = (variant_of.get(&x), exch_variant.get(&by)) {
+                                let same_key = v == ev || (matches!(*v, 0 | 5) && matches!(*ev, 0 | 5));
+                                if !same_key {
+                                    fails.push((format!("task {} (request variant {}) received the result of upstream exchange {} made for a different request (variant {})", name(x), v, by, ev), String::new()));
+                                }
+                            }
                             delivered.insert(by);
                             if let Some(k) = attached.remove(&x) {
                                 if creator_of.get(&k) == Some(&x) && by != k {
@@ -999,12 +1249,19 @@ fn exec_share(line: &str, t: &[&str], rec: &mut Recorder) {
         let waiting: Vec<usize> = (0..4).filter(|x| tasks[*x].is_some()).collect();
         let ex = gates.lock().unwrap().started;
         drop(tasks);
+        if invalid {
+            return Err("bad-op".to_string());
+        }
         Ok((ex, served, waiting, fails))
     });
     match r {
         Err(p) => {
             let idx = rec.case(line.to_string(), format!("panic {}", p.replace(char::is_whitespace, "_")));
             rec.fail(idx, format!("the pool panicked: {p}"), "");
+        }
+        Ok(Err(e)) if e == "bad-op" => {
+            rec.case(line.to_string(), "bad-op".into());
+            rec.stat("bad-op");
         }
         Ok(Err(e)) => {
             let idx = rec.case(line.to_string(), format!("err {}", e.replace(char::is_whitespace, "_")));
@@ -1125,6 +1382,19 @@ fn exec_seq(line: &str, t: &[&str], rec: &mut Recorder) {
     }
 }
 
+/// the server's configuration, through the public constructors where one fits
+fn name_server_config(i: usize, s: &Srv) -> NameServerConfig {
+    let tcp_first = s.ord & 1 != 0;
+    let mut cfg = match (s.udp.is_some(), s.tcp.is_some()) {
+        (true, true) if !tcp_first => NameServerConfig::udp_and_tcp(ip_of(i)),
+        (true, true) => NameServerConfig::new(ip_of(i), true, vec![ConnectionConfig::tcp(), ConnectionConfig::udp()]),
+        (true, false) => NameServerConfig::udp(ip_of(i)),
+        _ => NameServerConfig::tcp(ip_of(i)),
+    };
+    cfg.trust_negative_responses = s.trust;
+    cfg
+}
+
 fn build_pool(c: &Case) -> Result<(Arc<Env>, NameServerPool<Prov>), String> {
     let env = Arc::new(Env {
         srvs: c.srvs.clone(),
@@ -1132,11 +1402,24 @@ fn build_pool(c: &Case) -> Result<(Arc<Env>, NameServerPool<Prov>), String> {
         log: Mutex::new(vec![]),
         new_conns: Mutex::new(vec![]),
         react_late_us: Mutex::new(0),
+        warming: AtomicBool::new(false),
     });
     let prov = Prov { env: env.clone() };
     let mut opts = ResolverOpts::default();
     opts.timeout = Duration::from_millis(c.t_ms);
     opts.num_concurrent_reqs = c.ncr;
+    if let Some((du, dt)) = DENY.with(|d| d.get()) {
+        if du {
+            opts.deny_answers.push("10.1.0.0/16".parse().unwrap());
+        }
+        if dt {
+            opts.deny_answers.push("10.2.0.0/16".parse().unwrap());
+        }
+        if !du && !dt {
+            // a filter that denies nothing the servers ever answer: the filtering code runs, nothing is removed
+            opts.deny_answers.push("192.0.2.0/24".parse().unwrap());
+        }
+    }
     opts.server_ordering_strategy = match c.strat {
         Strat::User => ServerOrderingStrategy::UserProvidedOrder,
         Strat::Rr => ServerOrderingStrategy::RoundRobin,
@@ -1147,13 +1430,6 @@ fn build_pool(c: &Case) -> Result<(Arc<Env>, NameServerPool<Prov>), String> {
         .iter()
         .enumerate()
         .map(|(i, s)| {
-            let mut conns = vec![];
-            if s.udp.is_some() {
-                conns.push(ConnectionConfig::udp());
-            }
-            if s.tcp.is_some() {
-                conns.push(ConnectionConfig::tcp());
-            }
             let mut pre = vec![];
             if s.pre_udp {
                 pre.push((hickory_net::xfer::Protocol::Udp, Handle { env: env.clone(), srv: i, tcp: false }));
@@ -1161,7 +1437,10 @@ fn build_pool(c: &Case) -> Result<(Arc<Env>, NameServerPool<Prov>), String> {
             if s.pre_tcp {
                 pre.push((hickory_net::xfer::Protocol::Tcp, Handle { env: env.clone(), srv: i, tcp: true }));
             }
-            let cfg = NameServerConfig::new(ip_of(i), s.trust, conns);
+            if s.ord & 2 != 0 {
+                pre.reverse();
+            }
+            let cfg = name_server_config(i, s);
             Arc::new(NameServer::new(pre, cfg, &opts, prov.clone()))
         })
         .collect();
@@ -1176,11 +1455,24 @@ fn run_case(c: &Case) -> Result<RunOut, String> {
         log: Mutex::new(vec![]),
         new_conns: Mutex::new(vec![]),
         react_late_us: Mutex::new(0),
+        warming: AtomicBool::new(false),
     });
     let prov = Prov { env: env.clone() };
     let mut opts = ResolverOpts::default();
     opts.timeout = Duration::from_millis(c.t_ms);
     opts.num_concurrent_reqs = c.ncr;
+    if let Some((du, dt)) = DENY.with(|d| d.get()) {
+        if du {
+            opts.deny_answers.push("10.1.0.0/16".parse().unwrap());
+        }
+        if dt {
+            opts.deny_answers.push("10.2.0.0/16".parse().unwrap());
+        }
+        if !du && !dt {
+            // a filter that denies nothing the servers ever answer: the filtering code runs, nothing is removed
+            opts.deny_answers.push("192.0.2.0/24".parse().unwrap());
+        }
+    }
     opts.server_ordering_strategy = match c.strat {
         Strat::User => ServerOrderingStrategy::UserProvidedOrder,
         Strat::Rr => ServerOrderingStrategy::RoundRobin,
@@ -1191,13 +1483,6 @@ fn run_case(c: &Case) -> Result<RunOut, String> {
         .iter()
         .enumerate()
         .map(|(i, s)| {
-            let mut conns = vec![];
-            if s.udp.is_some() {
-                conns.push(ConnectionConfig::udp());
-            }
-            if s.tcp.is_some() {
-                conns.push(ConnectionConfig::tcp());
-            }
             let mut pre = vec![];
             if s.pre_udp {
                 pre.push((hickory_net::xfer::Protocol::Udp, Handle { env: env.clone(), srv: i, tcp: false }));
@@ -1205,7 +1490,10 @@ fn run_case(c: &Case) -> Result<RunOut, String> {
             if s.pre_tcp {
                 pre.push((hickory_net::xfer::Protocol::Tcp, Handle { env: env.clone(), srv: i, tcp: true }));
             }
-            let cfg = NameServerConfig::new(ip_of(i), s.trust, conns);
+            if s.ord & 2 != 0 {
+                pre.reverse();
+            }
+            let cfg = name_server_config(i, s);
             Arc::new(NameServer::new(pre, cfg, &opts, prov.clone()))
         })
         .collect();
@@ -1236,13 +1524,24 @@ fn run_case(c: &Case) -> Result<RunOut, String> {
             let _ = pool.send(warm_req()).first_answer().await;
         }
     };
-    sim_run(warm, false, 1000).map_err(|e| format!("warm-up {e:?}"))?;
+    env.warming.store(true, AO::SeqCst);
+    let w = sim_run(warm, false, 1000);
+    env.warming.store(false, AO::SeqCst);
+    w.map_err(|e| format!("warm-up {e:?}"))?;
     env.new_conns.lock().unwrap().clear();
 
     let max_fires = 4000;
     let k = c.k;
+    // every second caller enters through `DnsHandle::lookup` (same request, same de-duplication key)
+    let entry = std::cell::Cell::new(0usize);
     let one = |p: &NameServerPool<Prov>| {
-        let f = p.send(req.clone()).first_answer();
+        let i = entry.get();
+        entry.set(i + 1);
+        let f = if i % 2 == 1 {
+            p.lookup(Query::new(q_name(), RecordType::A), DnsRequestOptions::default()).first_answer()
+        } else {
+            p.send(req.clone()).first_answer()
+        };
         async move {
             let r = f.await;
             (classify(&r), sim_now(), real_off())
@@ -1396,12 +1695,46 @@ fn robust(c: &Case, o: &RunOut) -> bool {
 
 pub fn exec(line: &str, rec: &mut Recorder) {
     let t: Vec<&str> = line.split_whitespace().collect();
-    if t.first() == Some(&"real") {
+    if t.first() == Some(&"real") || t.first() == Some(&"realtcp") {
         exec_real(line, &t, rec);
         return;
     }
     if t.first() == Some(&"seq") {
         exec_seq(line, &t, rec);
+        return;
+    }
+    if t.first() == Some(&"runf") {
+        // `runf <u|t|ut|-> <rest of a run line>`: the same lookup with the answer address filter configured
+        let deny = match t.get(1) {
+            Some(&"u") => Some((true, false)),
+            Some(&"t") => Some((false, true)),
+            Some(&"ut") => Some((true, true)),
+            Some(&"-") => Some((false, false)),
+            _ => None,
+        };
+        let mut rt = vec!["run"];
+        rt.extend_from_slice(&t[2.min(t.len())..]);
+        match (deny, parse_case(&rt)) {
+            (Some(d), Some(c)) if !c.paced && c.cx.is_none() => {
+                rec.stat("runf_answer_filter");
+                DENY.with(|x| x.set(Some(d)));
+                let r = catch(|| run_case(&c));
+                finish_case(line, &c, r, rec);
+                DENY.with(|x| x.set(None));
+            }
+            _ => {
+                rec.case(line.to_string(), "bad-op".into());
+                rec.stat("bad-op");
+            }
+        }
+        return;
+    }
+    if t == ["noq"] {
+        exec_noq(line, rec);
+        return;
+    }
+    if t.first() == Some(&"rt") {
+        exec_rt(line, &t, rec);
         return;
     }
     if t.first() == Some(&"share") {
@@ -1464,6 +1797,12 @@ fn finish_case(line: &str, c: &Case, r: Result<Result<RunOut, String>, String>, 
         out.push_str(&format!("{} t={} log={}", first.0, first.1 / 1000, log_tok(&o.log, true)));
     }
     out.push_str(&format!(" same={}", b(all_same)));
+    if DENY.with(|d| d.get()).is_some() {
+        match LAST_NR.with(|l| l.get()) {
+            Some((a, g)) => out.push_str(&format!(" aut={a} glue={g}")),
+            None => out.push_str(" aut=- glue=-"),
+        }
+    }
     if let (Some(cr), Some(j)) = (&o.creator, &o.joiner) {
         match cr {
             Some((r, v)) => out.push_str(&format!(" c0={}@{}", r, v / 1000)),
@@ -1520,12 +1859,16 @@ fn exec_real(line: &str, t: &[&str], rec: &mut Recorder) {
     }
     rec.impl_only += 1;
     rec.stat("mode_R_real_sockets");
-    let r = catch(|| real_run(t_ms, d_ms));
+    let over_tcp = t[0] == "realtcp";
+    if over_tcp {
+        rec.stat("mode_R_real_sockets_tcp");
+    }
+    let r = catch(|| if over_tcp { real_run_tcp(t_ms, d_ms) } else { real_run(t_ms, d_ms) });
     let idx = rec.case(line.to_string(), "~".into());
     match r {
         Ok(Ok((class, elapsed_ms, s2_got_query))) => {
             rec.stat(&format!("real_result_{}", class.replace(':', "_")));
-            eprintln!("c18: real sockets T={t_ms} d={d_ms}: {class} after {elapsed_ms} ms");
+            eprintln!("c18: real sockets ({}) T={t_ms} d={d_ms}: {class} after {elapsed_ms} ms", t[0]);
             rec.nontrivial(idx);
             if !(class.starts_with("ans:") || class.starts_with("err:")) {
                 rec.fail(idx, format!("lookup completed with neither an answer nor an error: {class}"), "");
@@ -1550,6 +1893,80 @@ fn exec_real(line: &str, t: &[&str], rec: &mut Recorder) {
         }
         Err(p) => rec.fail(idx, format!("the pool panicked: {p}"), ""),
     }
+}
+
+/// the same over TCP (`TcpClientStream::exchange`, `DnsMultiplexer`): server 1 accepts, answers an untrusted
+/// NXDOMAIN after `d` ms; server 2 accepts, reads the query and never answers
+fn real_run_tcp(t_ms: u64, d_ms: u64) -> Result<(String, u64, bool), String> {
+    use tokio::io::{AsyncReadExt, AsyncWriteExt};
+    let rt = tokio::runtime::Builder::new_current_thread().enable_all().build().map_err(|e| e.to_string())?;
+    rt.block_on(async move {
+        let l1 = tokio::net::TcpListener::bind("127.0.0.1:0").await.map_err(|e| e.to_string())?;
+        let l2 = tokio::net::TcpListener::bind("127.0.0.2:0").await.map_err(|e| e.to_string())?;
+        let (p1, p2) = (l1.local_addr().map_err(|e| e.to_string())?.port(), l2.local_addr().map_err(|e| e.to_string())?.port());
+        let got2 = Arc::new(AtomicBool::new(false));
+        let g2 = got2.clone();
+        tokio::spawn(async move {
+            let mut held = vec![];
+            while let Ok((mut sock, _)) = l2.accept().await {
+                let mut len = [0u8; 2];
+                if sock.read_exact(&mut len).await.is_ok() {
+                    g2.store(true, AO::SeqCst);
+                }
+                held.push(sock);
+            }
+        });
+        tokio::spawn(async move {
+            while let Ok((mut sock, _)) = l1.accept().await {
+                tokio::spawn(async move {
+                    loop {
+                        let mut len = [0u8; 2];
+                        if sock.read_exact(&mut len).await.is_err() {
+                            break;
+                        }
+                        let mut buf = vec![0u8; u16::from_be_bytes(len) as usize];
+                        if sock.read_exact(&mut buf).await.is_err() {
+                            break;
+                        }
+                        let Ok(q) = Message::from_vec(&buf) else { break };
+                        let mut m = Message::query();
+                        m.metadata.id = q.metadata.id;
+                        if let Some(qq) = q.queries.first() {
+                            m.add_query(qq.clone());
+                        }
+                        let mut m = m.into_response();
+                        m.metadata.response_code = ResponseCode::NXDomain;
+                        tokio::time::sleep(Duration::from_millis(d_ms)).await;
+                        let Ok(bytes) = m.to_vec() else { break };
+                        let mut out = (bytes.len() as u16).to_be_bytes().to_vec();
+                        out.extend_from_slice(&bytes);
+                        if sock.write_all(&out).await.is_err() {
+                            break;
+                        }
+                    }
+                });
+            }
+        });
+        let mut opts = ResolverOpts::default();
+        opts.timeout = Duration::from_millis(t_ms);
+        opts.num_concurrent_reqs = 1;
+        opts.server_ordering_strategy = ServerOrderingStrategy::UserProvidedOrder;
+        let mut c1 = ConnectionConfig::tcp();
+        c1.port = p1;
+        let mut c2 = ConnectionConfig::tcp();
+        c2.port = p2;
+        let servers = vec![
+            NameServerConfig::new(IpAddr::V4(Ipv4Addr::new(127, 0, 0, 1)), false, vec![c1]),
+            NameServerConfig::new(IpAddr::V4(Ipv4Addr::new(127, 0, 0, 2)), true, vec![c2]),
+        ];
+        let cx = Arc::new(PoolContext::new(opts, TlsConfig::new().map_err(|e| e.to_string())?));
+        let pool = NameServerPool::from_config(servers, cx, TokioRuntimeProvider::new());
+        let req = DnsRequest::from_query(Query::new(q_name(), RecordType::A), DnsRequestOptions::default());
+        let start = Instant::now();
+        let r = pool.send(req).first_answer().await;
+        let elapsed = start.elapsed().as_millis() as u64;
+        Ok((classify(&r), elapsed, got2.load(AO::SeqCst)))
+    })
 }
 
 fn real_run(t_ms: u64, d_ms: u64) -> Result<(String, u64, bool), String> {
@@ -1721,6 +2138,11 @@ fn oracle(c: &Case, o: &RunOut, valid: bool, idx: usize, rec: &mut Recorder) {
     if c.cx.is_some() {
         return;
     }
+    // with an answer address filter configured the caller's result is the pool's result minus the denied
+    // records (by configuration): the clauses below speak about the unfiltered lookup
+    if DENY.with(|d| d.get()).is_some() {
+        return;
+    }
     // the remaining clauses speak about ONE lookup; with zero-latency replies several callers are
     // served by several consecutive lookups whose exchanges are merged in the log
     if c.k > 1 && c.srvs.iter().flat_map(all_steps).any(|st| st.lat_ms == 0) {
@@ -1884,7 +2306,7 @@ fn enumerate_a(o: &Opts, rec: &mut Recorder) {
                                             ),
                                             _ => (None, Some(behaviour_script(bhs[i], &mut lats, true))),
                                         };
-                                        Srv { trust, warm: if strat == Strat::Qs { warm[i] } else { 0 }, pre_udp: false, pre_tcp: false, udp, tcp }
+                                        Srv { trust, warm: if strat == Strat::Qs { warm[i] } else { 0 }, pre_udp: false, pre_tcp: false, udp, tcp, ord: 0 }
                                     })
                                     .collect();
                                 let c = Case {
@@ -1922,7 +2344,13 @@ fn gen_script(r: &mut Rng, lats: &mut Vec<u64>, tcp: bool) -> Vec<Step> {
             14 | 15 => Rep::Io,
             16 => Rep::Rst,
             17 | 18 => Rep::Busy,
-            _ => Rep::Cm,
+            _ => {
+                if r.chance(1, 2) {
+                    Rep::Cm
+                } else {
+                    Rep::Cf
+                }
+            }
         };
         // the last step repeats: a TCP script must not end re-queueing itself for ever
         let rep = if i == len - 1 && tcp && matches!(rep, Rep::Tc | Rep::Cm) { Rep::Ans } else { rep };
@@ -1970,6 +2398,7 @@ fn random_a(o: &Opts, rec: &mut Recorder) {
                     pre_tcp: use_pre && tcp.is_some() && r.chance(1, 3),
                     udp,
                     tcp,
+                    ord: if r.chance(1, 3) { r.below(4) as u8 } else { 0 },
                 }
             })
             .collect();
@@ -1988,7 +2417,28 @@ fn random_a(o: &Opts, rec: &mut Recorder) {
             },
             srvs,
         };
-        exec(&case_line(&c), rec);
+        let line = case_line(&c);
+        exec(&line, rec);
+        // the same lookup behind an answer address filter (every fourth plain case)
+        if c.cx.is_none() && r.chance(1, 4) {
+            let deny = *r.pick(&["u", "t", "ut", "-"]);
+            exec(&format!("runf {deny} {}", &line[4..]), rec);
+        }
+    }
+}
+
+/// the retry layer over a plain handle, and the request without a question
+fn gen_small(o: &Opts, rec: &mut Recorder) {
+    exec("noq", rec);
+    const OUTS: [&str; 9] = ["ans", "noconn", "timeout", "io", "busy", "msg", "nx", "nodata", "rcode"];
+    let mut r = Rng::new(o.seed ^ 0x47);
+    for _ in 0..o.n(400, 5000) {
+        let n = r.range(1, 7) as usize;
+        let mut outs: Vec<&str> = (0..n).map(|_| if r.chance(1, 3) { "busy" } else { *r.pick(&OUTS) }).collect();
+        if outs.last() == Some(&"busy") {
+            outs.push(*r.pick(&["ans", "timeout", "nx", "rcode"]));
+        }
+        exec(&format!("rt {} {}", r.below(4), outs.join(" ")), rec);
     }
 }
 
@@ -2010,12 +2460,15 @@ fn random_seq(o: &Opts, rec: &mut Recorder) {
                         if st.rep == Rep::Cm {
                             st.rep = Rep::Rst;
                         }
+                        if st.rep == Rep::Io && st.lat_ms % 2 == 0 {
+                            st.rep = Rep::Cf;
+                        }
                     }
                     v
                 };
                 let udp = if av != 2 { Some(fix(gen_script(&mut r, &mut lats, false))) } else { None };
                 let tcp = if av >= 1 { Some(fix(gen_script(&mut r, &mut lats, true))) } else { None };
-                Srv { trust: r.chance(1, 2), warm: 0, pre_udp: use_pre && udp.is_some() && r.chance(1, 2), pre_tcp: use_pre && tcp.is_some() && r.chance(1, 2), udp, tcp }
+                Srv { trust: r.chance(1, 2), warm: 0, pre_udp: use_pre && udp.is_some() && r.chance(1, 2), pre_tcp: use_pre && tcp.is_some() && r.chance(1, 2), udp, tcp, ord: r.below(4) as u8 }
             })
             .collect();
         let strat = if r.chance(1, 2) { "user" } else { "rr" };
@@ -2066,6 +2519,15 @@ const SHARE_DIRECTED: &[&str] = &[
     "sA sB dA sC r1 pB r2 pC",
     "sA sB sC dA sD r1 pB pC r2 pD",
     "sA sB dA sC dC sD r1 pB r3 pD",
+    // what makes two requests "identical" (CacheKey): DO bit, RD, CD, query type, client subnet separate them;
+    // the mere presence of EDNS does not
+    "sA sB1 sC5 r1 pA pC r2 pB",
+    "sA sB sC1 sD1 r1 pA pB r2 pC pD",
+    "sA2 sB3 sC4 sD6 r1 r2 r3 r4 pA pB pC pD",
+    "sA6 sB6 sC5 r1 pA pB r2 pC",
+    "sA1 sB1 dB sC1 r1 pA pC",
+    "sA4 sB r2 pB r1 pA sC4 sD",
+    "sA sB5 dA sC5 r1 pB r2 pC",
 ];
 
 fn gen_share(o: &Opts, rec: &mut Recorder) {
@@ -2078,6 +2540,7 @@ fn gen_share(o: &Opts, rec: &mut Recorder) {
         let mut started = [false; 4];
         let mut nstarted = 0usize;
         let mut toks: Vec<String> = vec![];
+        let with_variants = r.chance(1, 3);
         for _ in 0..len {
             let pick = r.below(10);
             let not_started: Vec<usize> = (0..4).filter(|x| !started[*x]).collect();
@@ -2086,7 +2549,8 @@ fn gen_share(o: &Opts, rec: &mut Recorder) {
                 let x = *r.pick(&not_started);
                 started[x] = true;
                 nstarted += 1;
-                toks.push(format!("s{}", (b'A' + x as u8) as char));
+                let var = if with_variants && r.chance(1, 2) { format!("{}", *r.pick(&[1u8, 1, 2, 3, 4, 5, 5, 6])) } else { String::new() };
+                toks.push(format!("s{}{}", (b'A' + x as u8) as char, var));
             } else if pick < 6 && !alive.is_empty() {
                 toks.push(format!("d{}", (b'A' + *r.pick(&alive) as u8) as char));
             } else if pick < 8 {
@@ -2107,7 +2571,7 @@ fn gen_share(o: &Opts, rec: &mut Recorder) {
 fn gen_b(o: &Opts) -> Vec<String> {
     let mut v = vec![];
     let st = |rep: Rep, lat_ms: u64| Step { rep, lat_ms };
-    let udp_only = |steps: Vec<Step>, trust: bool| Srv { trust, warm: 0, pre_udp: false, pre_tcp: false, udp: Some(steps), tcp: None };
+    let udp_only = |steps: Vec<Step>, trust: bool| Srv { trust, warm: 0, pre_udp: false, pre_tcp: false, udp: Some(steps), tcp: None, ord: 0 };
     let mk = |strat: Strat, ncr: usize, t_ms: u64, k: usize, srvs: Vec<Srv>| case_line(&Case { paced: true, strat, ncr, t_ms, pre: 0, k, cx: None, srvs });
     let mut r = Rng::new(o.seed ^ 0xB18);
     let reps = if o.thorough() { 6 } else { 1 };
@@ -2134,7 +2598,7 @@ fn gen_b(o: &Opts) -> Vec<String> {
             1,
             t,
             1,
-            vec![Srv { trust: true, warm: 0, pre_udp: true, pre_tcp: false, udp: Some(vec![st(Rep::Rst, 15 * g / 2), st(Rep::To, t)]), tcp: None }],
+            vec![Srv { trust: true, warm: 0, pre_udp: true, pre_tcp: false, udp: Some(vec![st(Rep::Rst, 15 * g / 2), st(Rep::To, t)]), tcp: None, ord: 0 }],
         ));
         // b3: everybody busy: back-off 20,40,80,… capped by the remaining budget → Timeout at T
         v.push(mk(Strat::User, 2, 105, 1, vec![udp_only(vec![st(Rep::Busy, 1)], true)]));
@@ -2145,7 +2609,7 @@ fn gen_b(o: &Opts) -> Vec<String> {
         // parallel batch: the slow members would keep the round open across the deadline
         v.push(mk(Strat::User, 2, t, 1, vec![udp_only(vec![st(Rep::Io, 2 * g)], true), udp_only(vec![st(Rep::To, 8 * g)], true), udp_only(vec![st(Rep::To, 7 * g)], true)]));
         // truncated → TCP within the budget, and across the deadline
-        let both = |u: Vec<Step>, tc: Vec<Step>| Srv { trust: true, warm: 0, pre_udp: false, pre_tcp: false, udp: Some(u), tcp: Some(tc) };
+        let both = |u: Vec<Step>, tc: Vec<Step>| Srv { trust: true, warm: 0, pre_udp: false, pre_tcp: false, udp: Some(u), tcp: Some(tc), ord: 0 };
         v.push(mk(Strat::User, 1, t, 1, vec![both(vec![st(Rep::Tc, 2 * g)], vec![st(Rep::Ans, 3 * g)])]));
         v.push(mk(Strat::User, 1, t, 1, vec![both(vec![st(Rep::Tc, 7 * g)], vec![st(Rep::Ans, 8 * g)])]));
         // TCP keeps answering truncated: re-queued until the deadline ends the loop
@@ -2196,7 +2660,7 @@ fn gen_b(o: &Opts) -> Vec<String> {
                 2,
                 tp,
                 1,
-                vec![Srv { trust: true, warm: 0, pre_udp: true, pre_tcp: false, udp: Some(vec![st(Rep::Rst, at(5)), st(Rep::To, 3 * tp)]), tcp: None }, hang()],
+                vec![Srv { trust: true, warm: 0, pre_udp: true, pre_tcp: false, udp: Some(vec![st(Rep::Rst, at(5)), st(Rep::To, 3 * tp)]), tcp: None, ord: 0 }, hang()],
             ));
         }
         // random grid cases
@@ -2288,10 +2752,13 @@ pub fn run(o: &Opts, rec: &mut Recorder) {
     eprintln!("c18: +random {} cases {:?}", rec.cases.len(), t0.elapsed());
     random_seq(o, rec);
     eprintln!("c18: +seq {} cases {:?}", rec.cases.len(), t0.elapsed());
+    gen_small(o, rec);
     gen_share(o, rec);
     eprintln!("c18: +share {} cases {:?}", rec.cases.len(), t0.elapsed());
     run_paced(gen_b(o), rec);
     eprintln!("c18: +paced {} cases {:?}", rec.cases.len(), t0.elapsed());
     exec("real 300 240", rec);
     exec("real 300 180", rec);
+    exec("realtcp 300 180", rec);
+    exec("realtcp 300 20", rec);
 }
